@@ -101,3 +101,40 @@ def first_diff(a, b, path=''):
                     return first_diff(x, y, path + ('[%d]' % i if not path.endswith(']') else ''))
                 return path or '.'
     return path or '.'
+
+
+def _leaf_at(d, path_parts):
+    return d
+
+
+def leaf_kind(x):
+    if isinstance(x, tuple) and x and isinstance(x[0], str):
+        return x[0]
+    if x is None:
+        return 'None'
+    return type(x).__name__
+
+
+def diff_kind(a, b):
+    """Short descriptor of the nature of the first difference between two eq-dumps, e.g. 'dt-naive->dt-aware',
+    'None->str', 'str->str', 'len3->2'.  Makes known-finding signatures specific to one kind of disagreement."""
+    if a == b:
+        return 'same'
+    if isinstance(a, tuple) and isinstance(b, tuple) and a and b and leaf_kind(a) == leaf_kind(b) \
+            and leaf_kind(a) not in ('b', 'enum', 'dt-aware', 'dt-naive', 'td', 'val', 'der', 'asn1', 'repr', 'type'):
+        if len(a) != len(b):
+            return 'len%d->%d' % (min(len(a), 9) - 1, min(len(b), 9) - 1)
+        for x, y in zip(a, b):
+            if x != y:
+                if isinstance(x, tuple) and len(x) == 2 and isinstance(x[0], str) and isinstance(y, tuple) \
+                        and len(y) == 2 and x[0] == y[0] and not (isinstance(x[1], (bytes, str)) and x[0] in ('b',)):
+                    return diff_kind(x[1], y[1])
+                return diff_kind(x, y)
+    ka, kb = leaf_kind(a), leaf_kind(b)
+    if ka == kb == 'str':
+        if a.lower() == b.lower():
+            return 'str-case'
+        return 'str->str'
+    if ka == kb == 'b':
+        return 'bytes%d->%d' % (min(len(a[1]), 99), min(len(b[1]), 99)) if len(a[1]) != len(b[1]) else 'bytes-content'
+    return '%s->%s' % (ka, kb)
